@@ -747,7 +747,7 @@ class Scores:
             points = np.sort(np.concatenate([self.pos, self.neg]))
             if len(points) < 2:
                 raise ValueError("At least two values are required to set thresholds.")
-        elif isinstance(points, int):
+        elif isinstance(points, (int, np.integer)):
             min_score = min(
                 self.pos[0] if len(self.pos) > 0 else np.inf,
                 self.neg[0] if len(self.neg) > 0 else np.inf,
